@@ -1,6 +1,6 @@
 (* C06 — custom functions and declared methods are used wherever their types occur; contexts are passed on
    unchanged and are never sources; a required context that is unavailable makes generation fail. *)
-From Coq Require Import List NArith ZArith Bool.
+From Coq Require Import List NArith ZArith Bool String.
 From GV Require Import Base Ty Conf Extracted Val Plan Eval Sig SigProofs SigUses Funcs Gen CallFacts ErrFacts.
 Import ListNotations.
 Open Scope N_scope.
@@ -32,6 +32,15 @@ Theorem C06_call_yields_function_result : forall e M F f cx fi args fl src st fd
   exists v st1, eval_v e M F (S f) cx (PCallX (CFn fi) args fl) src st = Done (v, st1).
 Proof. exact call_succeeds. Qed.
 
+(* the predicate behind useUnderlyingTypeMethods asks whether a function / method with the signature EXISTS
+   (regardless of contexts: a function whose contexts are unavailable must make generation fail, not be skipped);
+   its expression is read from the source and is what Gen.has_method models *)
+Theorem C06_has_method_by_signature_only : x_hasmethod_expr = s2r "extend.Has||lookup.Has"%string.
+Proof. reflexivity. Qed.
+Theorem C06_has_method_model : forall FT ext tab s t,
+  has_method FT ext tab s t = existsb (fun f => fn_sig_matches FT f s t) ext || existsb (fun m => sig_matches m s t) tab.
+Proof. reflexivity. Qed.
+
 (* contexts: unavailable => generation fails; available => handed on unchanged *)
 Theorem C06_unavailable_context_fails_lookup : forall e cc out exc FT ext sm f ctx lv s t st,
   ext_get FT ext s t (avail_of_tab (b_tab st) ctx) = GUnsat ->
@@ -59,6 +68,8 @@ Print Assumptions C06_extend_takes_precedence.
 Print Assumptions C06_extend_takes_precedence_assign.
 Print Assumptions C06_method_takes_precedence.
 Print Assumptions C06_lookup_sound.
+Print Assumptions C06_has_method_by_signature_only.
+Print Assumptions C06_has_method_model.
 Print Assumptions C06_call_yields_function_result.
 Print Assumptions C06_unavailable_context_fails_lookup.
 Print Assumptions C06_missing_context_on_declared_method_fails.
